@@ -18,8 +18,9 @@ CLAIMED = {
     "C02": dict(
         text="exp: radial ODE D(M(exp a), a->a) = M(exp a) hat(a) on every closed-form path (exact), value I and derivative hat(b) at a = 0, and the "
              "small-angle branch within 1e-9 of the closed form by rigorous series bounds; exp(log g) = g and log(exp a) = a on closed-form paths; log's "
-             "small-angle branch within 1e-9. With ODE uniqueness (A5) this gives exp = expm o hat for all a. Rounding (incl. the cancellation just above "
-             "the switch quoted in the property) and the measure-zero paths |a|^2 == eps2 are not decided.",
+             "small-angle branch within 1e-9. Every combination of series / closed-form Taylor tails (one switch per tail order since fix 4187586) is proved within "
+             "tolerance of the all-closed path. With ODE uniqueness (A5) this gives exp = expm o hat for all a. Rounding is covered by the bounded stand-in only "
+             "(found and repaired: cancellation of the Taylor tails above the old eps2 switch); the measure-zero paths exactly on a switch are not decided.",
         note="A1; A2 libm contracts (sqrt, sin/cos, atan2 polar form + injectivity, derivatives, Maclaurin series); A5 ODE uniqueness, Taylor remainder; A6; A7; A8.",
         tech=IRSX + "exact normal form (closed-form paths) and truncated-series bounds (small-angle paths)", ref="4 C02"),
     "C03": dict(
@@ -30,12 +31,14 @@ CLAIMED = {
     "C04": dict(
         text="dr_exp is tied to the code's own exp by the definition of the right Jacobian (symbolic derivative of exp's output), dr_expinv/dl_expinv are exact "
              "inverses, dl_exp = Ad(exp) dr_exp, dr_action and dr_rminus* equal their definitions, on all closed-form paths; every small-angle branch is within "
-             "1e-7 (relative to the largest entry, class-wise in the translation coordinates) of its closed form. Rounding is not decided.",
+             "1e-7 (relative to the largest entry, class-wise in the translation coordinates) of its closed form, for every combination of series / closed-form tails. "
+             "Rounding: bounded stand-in only (found and repaired: cancellation above the old eps2 switch, total loss in float).",
         note="A1; A2; A5; A6; A7; A8.", tech=IRSX + "symbolic differentiation + exact normal form; truncated-series bounds on small-angle paths", ref="4 C04"),
     "C05": dict(
         text="d2r_exp/d2r_expinv/d2l_* equal the entrywise symbolic derivatives of the code's own dr_exp/dr_expinv/dl_* in the documented stacked layout "
              "(the transposed layout is refuted as a canary), small-angle branches within 1e-5 relative, d2r_rminus* and the helpers d_matrix_product / d2_fog "
-             "equal the product/chain rule for symbolic matrices of sizes 1..4 x 1..3. Found and repaired: SE2::d2r_exp small-angle constant.",
+             "equal the product/chain rule for symbolic matrices of sizes 1..4 x 1..3. Found and repaired: SE2::d2r_exp small-angle constant; the eps2 switches and "
+             "one-term series of the second-derivative helpers (034cecc). Rounding: bounded stand-in only.",
         note="A1; A2; A5; A6; A7 (helper sizes sampled; dynamic/sparse d2_fog not instantiated); A8.",
         tech=IRSX + "symbolic differentiation + exact normal form; truncated-series bounds", ref="4 C05"),
     "C06": dict(
@@ -220,7 +223,7 @@ def main():
              "kind_free_text": "CBMC 6.11 function and loop contracts (goto-instrument --dfcc) on C extracted mechanically from the headers by must-fire rewrite rules"},
         ],
         "checks": checks,
-        "notes": "Repairs of genuine defects in /repo (\"fix:\" commits) are recorded in /verif/known_findings.jsonl as fixed: lines. DESIGN.md section 8 lists which checks catch which seeded changes.",
+        "notes": "No unrepaired known finding remains. Repairs of genuine defects in /repo (\"fix:\" commits) are recorded in /verif/known_findings.jsonl as fixed: lines. DESIGN.md section 8 lists which checks catch which seeded changes.",
         "not_applicable": [{"property_id": pid, "reason": na.get(pid, "machinery for this property is not finished; no claim is made (DESIGN.md section 6)")}
                            for pid in ids if pid not in CLAIMED],
     }
